@@ -75,7 +75,7 @@ package agentstorage
 //@   requires twf(t) && src != nil && 0 <= pi && pi < len(t.pieces)
 //@   requires holds_token: t.pieces[pi].mine
 //@   nopanic
-//@   modifies t.pieces[pi].status, t.pieces[pi].mine, t.numComplete.val
+//@   modifies t.pieces[pi].status, t.pieces[pi].mine, t.numComplete.val, every io.Writer.copyfail
 //@   assert checksum_matches: at Torrent.markPieceComplete#0 :: crcstream(as(io.Writer, h).wsrc, as(io.Writer, h).wlo, as(io.Writer, h).whi - as(io.Writer, h).wlo) == t.metaInfo.info.PieceSums[pi]
 //@   ensures done: result == nil ==> t.pieces[pi].status == _complete && !t.pieces[pi].mine && t.numComplete.val == old(t.numComplete.val) + 1
 //@   ensures failed: result != nil ==> t.pieces[pi].mine && t.numComplete.val == old(t.numComplete.val) && t.pieces[pi].status == old(t.pieces[pi].status)
@@ -119,7 +119,7 @@ package agentstorage
 //@   requires twf(t) && src != nil
 //@   requires no_token_held: forall i int :: 0 <= i && i < len(t.pieces) ==> !t.pieces[i].mine
 //@   nopanic
-//@   modifies every piece.status, every piece.mine, t.numComplete.val, t.committed.val, map t.cads.incache, t.cads.moves
+//@   modifies every piece.status, every piece.mine, t.numComplete.val, t.committed.val, map t.cads.incache, t.cads.moves, every io.Writer.copyfail
 //@   ensures reports_complete_only_after_the_move: t.committed.val && !old(t.committed.val) ==> t.cads.moves > old(t.cads.moves)
 //@   assert commit_after_all_pieces: at caDownloadStore.MoveDownloadFileToCache#0 :: t.numComplete.val == len(t.pieces)
 //@   ensures token_not_leaked: 0 <= pi && pi < len(t.pieces) ==> t.pieces[pi].mine == old(t.pieces[pi].mine)
